@@ -110,6 +110,16 @@ func (e *CrashEngine) Generate(prop, tier string, seed uint64, run int) *sim.Pla
 			add("fetch", 0)
 		}
 	}
+	if (target == "pull" || target == "merge") && r.Chance(0.2) {
+		// the merge that has to be refused: a foreign history published under the id of a local,
+		// never pushed bug with two commits
+		fill(add("newbug", 0))
+		fill(add("edit", 0))
+		add("foreign", 0)
+		if target == "merge" {
+			add("fetch", 0)
+		}
+	}
 	tgt := add(target, 0)
 	fill(tgt)
 	if target == "pull" && r.Chance(0.5) {
